@@ -77,12 +77,21 @@ Fixpoint ranges_ascending (ts : list otable) : bool :=
 Definition range_is_first_last (t : otable) : bool :=
   bytes_eqb (d_start (ot_doc t)) (first_key (scan_of t)) && bytes_eqb (d_end (ot_doc t)) (last_key (scan_of t)).
 
-(* spec: the size rule of WriteRun in FlushSize units *)
+(* spec: the size rule of WriteRun in FlushSize units: a table is cut at the first entry that reaches the target;
+   the tail is merged into the last table as long as it stays below 1.5 x target *)
+Definition regular_chunk (target : N) (c : list entry) : bool :=
+  (target <=? run_size c) && (run_size (removelast c) <? target).
 Fixpoint size_rule (target : N) (chunks : list (list entry)) : bool :=
   match chunks with
   | [] => true
-  | [c] => run_size c <? max_buffer target
-  | c :: r => (target <=? run_size c) && (run_size (removelast c) <? target) && size_rule target r
+  | [c] => (run_size c <? max_buffer target) || regular_chunk target c
+  | c :: r => regular_chunk target c && size_rule target r
+  end.
+(* the input run cut at the observed table lengths *)
+Fixpoint split_by (lens : list nat) (es : list entry) : list (list entry) :=
+  match lens with
+  | [] => []
+  | n :: r => firstn n es :: split_by r (skipn n es)
   end.
 
 Definition nth_table (ts : list otable) (i : N) : option otable := nth_error ts (N.to_nat i).
@@ -123,7 +132,7 @@ Definition check_tab (deep : bool) (es : list entry) (target : N) (ts : list ota
   flag (list_eqb Nat.eqb (map (@length _) chunks) (map (@length _) ochunks)) 1 ++
   flag (all2 (fun t ot => doc_matches deep t (ot_doc ot)) mts ts) 2 ++
   (if deep then
-     flag (all2 (fun t ot => bytes_eqb (t_file t) (ot_bytes ot)) mts ts) 3 ++
+     flag (all2 (fun t ot => match ot_bytes ot with [] => true | b => bytes_eqb (t_file t) b end) mts ts) 3 ++
      flat_map (check_lookup_model mts) lookups ++
      flag (forallb (fun b => let bf := bloom_of es in
                              Bool.eqb (bl_has b) (bf_might_have bf (bl_key b))
@@ -147,7 +156,7 @@ Definition check_tab (deep : bool) (es : list entry) (target : N) (ts : list ota
   flag (match es with [] => Nat.eqb (length ts) 1 | _ => forallb (fun c => negb (Nat.eqb (length c) 0)) ochunks end) 106 ++
   flag (forallb range_is_first_last ts && (match es with [] => true | _ => ranges_ascending ts end)) 107 ++
   (* size rule *)
-  flag ((target =? 0) || size_rule target ochunks) 108 ++
+  flag ((target =? 0) || size_rule target (split_by (map (@length _) ochunks) es)) 108 ++
   (* the bloom filter never denies a present key (before and after an encode/decode round trip) *)
   flag (forallb (fun b => match find_key (bl_key b) es with Some _ => bl_has b && bl_has_dec b | None => true end) blooms) 109.
 
